@@ -1,7 +1,87 @@
+import MythVerif.Model.Cond
 import Driver.Util
-/-! `drv_cond`: stub, to be filled in -/
+/-! `drv_cond`: trace acceptor for condition variables.  `obj oN cond oM` declares a condition
+variable used with mutex `oM`.  Mutex acquisitions / releases (the instants the lock bit is set
+/ cleared, as established by C04) drive the abstract `holder`. -/
 namespace Driver.Cond
+open MythVerif MythVerif.Cond
+
+structure CObj where
+  name : String
+  mutex : String
+  st : St
+
+structure Acc where
+  objs : List CObj := []
+  line : Nat := 0
+  accepted : Nat := 0
+  err : Option String := none
+
+def showPc : PC → String
+  | .idle => "idle" | .w0 => "w0" | .wSw => "wSw" | .wQ => "wQ" | .wWoken => "wWoken"
+  | .sg => "sg" | .sgP x => s!"sgP{x}" | .bc => "bc" | .bcP x => s!"bcP{x}"
+
+def parseOpt (s : String) : Option (Option Nat) :=
+  if s == "-" then some none else (Driver.parseTag s).map some
+
+/-- labels an event denotes for one condition object (possibly none: event not about it) -/
+def toLbl (o : CObj) (e : Driver.Ev) : Option (Option Lbl) :=
+  let tb := Driver.parseTag e.b
+  if e.a == o.mutex then
+    match e.pt, e.cur with
+    | "MX_LOCK_CAS1", some t => if e.v == 1 then some (some (.acquire t)) else some none
+    | "MX_TRY_CAS", some t => if e.v == 1 then some (some (.acquire t)) else some none
+    | "MX_UNLOCK_CAS0", some t =>
+        if e.v == 1 then some (some (if o.st.cbh t then .cbRelease t else .release t)) else some none
+    | "MX_CLEAR_BIT", some t => some (some (if o.st.cbh t then .cbRelease t else .release t))
+    | "MX_LOCK_CAS1", none | "MX_TRY_CAS", none | "MX_UNLOCK_CAS0", none | "MX_CLEAR_BIT", none => none
+    | _, _ => some none
+  else if e.a == o.name then
+    match e.pt with
+    | "COND_WAIT" => e.cur.map (fun t => some (.waitStart t))
+    | "BLOCK_BEGIN" => tb.map (fun t => some (.blockBegin t))
+    | "BLOCK_CB_ENQ" => tb.map (fun t => some (.cbEnq t))
+    | "COND_SIGNAL" => e.cur.map (fun t => some (.sigStart t))
+    | "COND_BCAST" => e.cur.map (fun t => some (.bcStart t))
+    | "WAKE_DEQ" =>
+        match e.cur, parseOpt e.b with
+        | some t, some x => some (some (if o.st.pc t == .sg then .sigDeq t x else .bcDeq t x))
+        | _, _ => none
+    | "WAKE_PUSH" =>
+        match e.cur, tb with
+        | some t, some x => some (some (.push t x))
+        | _, _ => none
+    | _ => some none
+  else some none
+
+def feed (acc : Acc) (line : String) : Acc :=
+  if acc.err.isSome then acc else
+  let acc := { acc with line := acc.line + 1 }
+  match Driver.words line with
+  | ["obj", name, "cond", m] => { acc with objs := { name := name, mutex := m, st := init } :: acc.objs }
+  | _ =>
+  match Driver.parseEv line with
+  | none => acc
+  | some e =>
+    acc.objs.foldl (fun acc o =>
+      if acc.err.isSome then acc else
+      match toLbl o e with
+      | none => { acc with err := some s!"MISMATCH line {acc.line}: cannot attribute `{line.trimAscii.toString}` to a thread" }
+      | some none => acc
+      | some (some l) =>
+        match step o.st l with
+        | some st' =>
+          { acc with objs := acc.objs.map (fun p => if p.name == o.name then { p with st := st' } else p),
+                     accepted := acc.accepted + 1 }
+        | none =>
+          { acc with err := some s!"MISMATCH line {acc.line}: cond model {o.name} cannot do `{line.trimAscii.toString}`: holder={o.st.holder} cq={o.st.cq} pc[actor]={showPc (o.st.pc l.actor)}" })
+      acc
+
 def run (_args : List String) : IO UInt32 := do
-  IO.eprintln "drv_cond: not implemented"
-  return 2
+  let stdin ← IO.getStdin
+  let acc ← Driver.forLines stdin ({} : Acc) fun a line => pure (feed a line)
+  match acc.err with
+  | some e => IO.println e; return 0
+  | none => IO.println s!"accepted {acc.accepted}"; return 0
+
 end Driver.Cond
